@@ -79,6 +79,18 @@ pub fn mutate(r: &mut Rng, b: &[u8]) -> Vec<u8> {
     m
 }
 
+/// systematic single-byte edits: every position (up to a cap) incremented, decremented and bumped by 7 --
+/// this is what rewrites a chunk size, a count, a length, a tag, a position byte or a version byte
+pub fn systematic<T: V>(b: &[u8], c: &mut Collector, q: &mut Vec<Pending>) {
+    for p in 0..b.len().min(160) {
+        for delta in [1u8, 255, 7] {
+            let mut m = b.to_vec();
+            m[p] = m[p].wrapping_add(delta);
+            case_bytes::<T>(&m, "tamper", c, q, 0);
+        }
+    }
+}
+
 struct RawVis<'a> {
     r: Rng,
     c: &'a mut Collector,
@@ -128,7 +140,14 @@ impl<'a> Visitor for RawVis<'a> {
                 .collect();
             case_bytes::<T>(&b, "random", self.c, &mut self.q, budget);
         }
-        // structure-aware: mutants of valid encodings
+        // structure-aware: systematic single-byte edits of a few valid encodings
+        for _ in 0..2 {
+            let v = T::gen(&mut r, 2);
+            if let Out::Ok(b) = impl_encode(&v) {
+                systematic::<T>(&b, self.c, &mut self.q);
+            }
+        }
+        // structure-aware: random mutants of valid encodings
         let mut made = 0;
         let mut tries = 0;
         while made < self.mutants_per_type && tries < self.mutants_per_type * 4 {
